@@ -280,9 +280,9 @@ class Verifier:
     def run_path(self, contract, fv, sname, builder, ctx, sink, results, info, check_vacuity):
         b = SymBuilder(ctx, self.world)
         call = builder(b)
-        args = call.get("args", [])
-        kwargs = call.get("kwargs", {})
-        extra = call.get("env", {})
+        args = [b.conv(a) for a in call.get("args", [])]
+        kwargs = {k: b.conv(v) for k, v in call.get("kwargs", {}).items()}
+        extra = {k: b.conv(v) for k, v in call.get("env", {}).items()}
         if isinstance(fv, FuncVal):
             bindings = ctx.bind(fv, args, kwargs)
         else:
